@@ -35,787 +35,9 @@ broadcast use ax::axiom_from_invalid_index;
 //@include prelude/tree_spec.rs
 //@include prelude/tree_helpers.rs
 
-// two arenas with the same domain and the same links (values may differ)
-pub open spec fn same_shape<N, const K: usize>(a0: Arena<N, K>, a1: Arena<N, K>) -> bool {
-    a0.dom() =~= a1.dom() && forall|i: usize| #![trigger a1[i]] a0.dom().contains(i) ==>
-        a0[i].parent == a1[i].parent && a0[i].children == a1[i].children && a0[i].isleaf == a1[i].isleaf
-}
+//@include prelude/tree_lemmas.rs
 
-pub proof fn lemma_same_shape_wf<N, const K: usize>(a0: Arena<N, K>, a1: Arena<N, K>, root: Option<usize>)
-    requires wf_at(a0, root), same_shape(a0, a1)
-    ensures wf_at(a1, root)
-{
-    let d = choose|d: Map<usize, nat>| ranked(a0, d);
-    assert(ranked(a1, d)) by {
-        assert forall|c: usize| a1.dom().contains(c) && (#[trigger] a1[c].parent).is_some() implies d[a1[c].parent.unwrap()] < d[c] by {
-            assert(a0[c].parent == a1[c].parent);
-        }
-    }
-    let h = choose|h: Map<usize, nat>| ranked_down(a0, h);
-    assert(ranked_down(a1, h)) by {
-        assert forall|i: usize, l: int| a1.dom().contains(i) && 0 <= l < K && (#[trigger] a1[i].children[l]).is_some() implies h[a1[i].children[l].unwrap()] < h[i] by {
-            assert(a0[i].children[l] == a1[i].children[l]);
-        }
-    }
-    assert(kids_ok(a1)) by {
-        assert forall|i: usize, l: int| a1.dom().contains(i) && 0 <= l < K && (#[trigger] a1[i].children[l]).is_some() implies
-            a1.dom().contains(a1[i].children[l].unwrap()) && a1[a1[i].children[l].unwrap()].parent == Some(i) by {
-            assert(a0[i].children[l] == a1[i].children[l]);
-            let c = a0[i].children[l].unwrap();
-            assert(a0[c].parent == a1[c].parent);
-        }
-    }
-    assert(parents_ok(a1)) by {
-        assert forall|c: usize| a1.dom().contains(c) && (#[trigger] a1[c].parent).is_some() implies
-            a1.dom().contains(a1[c].parent.unwrap())
-            && exists|l: int| 0 <= l < K && #[trigger] a1[a1[c].parent.unwrap()].children[l] == Some(c) by {
-            assert(a0[c].parent == a1[c].parent);
-            let p = a0[c].parent.unwrap();
-            let l = choose|l: int| 0 <= l < K && #[trigger] a0[p].children[l] == Some(c);
-            assert(a1[p].children[l] == Some(c));
-        }
-    }
-    assert(kids_unique(a1)) by {
-        assert forall|i: usize, l1: int, l2: int| a1.dom().contains(i) && 0 <= l1 < K && 0 <= l2 < K && l1 != l2
-            && (#[trigger] a1[i].children[l1]).is_some() implies a1[i].children[l1] != #[trigger] a1[i].children[l2] by {
-            assert(a0[i].children[l1] == a1[i].children[l1]);
-            assert(a0[i].children[l2] == a1[i].children[l2]);
-        }
-    }
-    assert(leaf_ok(a1)) by {
-        assert forall|i: usize| a1.dom().contains(i) implies (#[trigger] a1[i].isleaf <==> no_kids(a1[i])) by {
-            assert(a0[i].isleaf == a1[i].isleaf);
-            assert(a0[i].children == a1[i].children);
-            assert(no_kids(a0[i]) <==> no_kids(a1[i]));
-        }
-    }
-    assert(root_ok(a1, root)) by {
-        assert forall|i: usize| a1.dom().contains(i) && (#[trigger] a1[i].parent).is_none() implies root == Some(i) by {
-            assert(a0[i].parent == a1[i].parent);
-        }
-        if root.is_some() { assert(a0[root.unwrap()].parent == a1[root.unwrap()].parent); }
-    }
-}
-
-// a1 is a0 with a fresh leaf c hung below `parent` at slot `label`
-pub open spec fn child_added<N, const K: usize>(a0: Arena<N, K>, a1: Arena<N, K>, parent: usize, label: usize, c: usize) -> bool {
-    &&& a0.dom().contains(parent) && label < K && a0[parent].children[label as int].is_none()
-    &&& !a0.dom().contains(c) && a1.dom() =~= a0.dom().insert(c)
-    &&& a1[c].parent == Some(parent) && a1[c].isleaf && no_kids(a1[c])
-    &&& a1[parent].children@ == a0[parent].children@.update(label as int, Some(c))
-    &&& a1[parent].parent == a0[parent].parent && !a1[parent].isleaf
-    &&& forall|i: usize| a0.dom().contains(i) && i != parent ==> a1[i] == a0[i]
-}
-
-pub proof fn lemma_add_child_wf<N, const K: usize>(a0: Arena<N, K>, a1: Arena<N, K>, root: Option<usize>, parent: usize, label: usize, c: usize)
-    requires wf_at(a0, root), child_added(a0, a1, parent, label, c)
-    ensures wf_at(a1, root)
-{
-    let d = choose|d: Map<usize, nat>| ranked(a0, d);
-    let d1 = d.insert(c, d[parent] + 1);
-    assert(c != parent);
-    assert(forall|l: int| 0 <= l < K && l != label ==> a1[parent].children[l] == a0[parent].children[l]) by {
-        assert forall|l: int| 0 <= l < K && l != label implies a1[parent].children[l] == a0[parent].children[l] by {
-            assert(a1[parent].children@[l] == a0[parent].children@[l]);
-        }
-    }
-    assert(a1[parent].children[label as int] == Some(c)) by { assert(a1[parent].children@[label as int] == Some(c)); }
-    // no old node lists c (c was not in the arena)
-    assert forall|i: usize, l: int| a0.dom().contains(i) && 0 <= l < K implies (#[trigger] a0[i].children[l]) != Some(c) by {}
-    assert(ranked(a1, d1)) by {
-        assert forall|x: usize| a1.dom().contains(x) && (#[trigger] a1[x].parent).is_some() implies d1[a1[x].parent.unwrap()] < d1[x] by {
-            if x == c {} else {
-                assert(a1[x].parent == a0[x].parent);
-                assert(a0.dom().contains(a0[x].parent.unwrap()));
-            }
-        }
-    }
-    let h = choose|h: Map<usize, nat>| ranked_down(a0, h);
-    // every old height is shifted up by one, the fresh leaf gets height 0
-    let h1 = Map::<usize, nat>::new(a1.dom(), |i: usize| if i == c { 0nat } else { (h[i] + 1) as nat });
-    assert(ranked_down(a1, h1)) by {
-        assert forall|i: usize, l: int| a1.dom().contains(i) && 0 <= l < K && (#[trigger] a1[i].children[l]).is_some() implies h1[a1[i].children[l].unwrap()] < h1[i] by {
-            if i == c { assert(a1[c].children[l].is_none()); }
-            else if i == parent && l == label {}
-            else {
-                assert(a1[i].children[l] == a0[i].children[l]);
-                let x = a0[i].children[l].unwrap();
-                assert(a0.dom().contains(x));
-                assert(x != c);
-            }
-        }
-    }
-    assert(kids_ok(a1)) by {
-        assert forall|i: usize, l: int| a1.dom().contains(i) && 0 <= l < K && (#[trigger] a1[i].children[l]).is_some() implies
-            a1.dom().contains(a1[i].children[l].unwrap()) && a1[a1[i].children[l].unwrap()].parent == Some(i) by {
-            if i == c { assert(a1[c].children[l].is_none()); }
-            else if i == parent && l == label {}
-            else {
-                assert(a1[i].children[l] == a0[i].children[l]);
-                let x = a0[i].children[l].unwrap();
-                assert(x != c);
-                assert(a1[x].parent == a0[x].parent);
-            }
-        }
-    }
-    assert(parents_ok(a1)) by {
-        assert forall|x: usize| a1.dom().contains(x) && (#[trigger] a1[x].parent).is_some() implies
-            a1.dom().contains(a1[x].parent.unwrap())
-            && exists|l: int| 0 <= l < K && #[trigger] a1[a1[x].parent.unwrap()].children[l] == Some(x) by {
-            if x == c { assert(a1[parent].children[label as int] == Some(c)); }
-            else {
-                assert(a1[x].parent == a0[x].parent);
-                let p = a0[x].parent.unwrap();
-                let l = choose|l: int| 0 <= l < K && #[trigger] a0[p].children[l] == Some(x);
-                assert(l != label || p != parent);
-                assert(a1[p].children[l] == Some(x));
-            }
-        }
-    }
-    assert(kids_unique(a1)) by {
-        assert forall|i: usize, l1: int, l2: int| a1.dom().contains(i) && 0 <= l1 < K && 0 <= l2 < K && l1 != l2
-            && (#[trigger] a1[i].children[l1]).is_some() implies a1[i].children[l1] != #[trigger] a1[i].children[l2] by {
-            if i == c { assert(a1[c].children[l1].is_none()); }
-            else if i == parent {
-                if l1 == label { assert(a1[i].children[l2] == a0[i].children[l2]); }
-                else if l2 == label { assert(a1[i].children[l1] == a0[i].children[l1]); }
-                else { assert(a1[i].children[l1] == a0[i].children[l1]); assert(a1[i].children[l2] == a0[i].children[l2]); }
-            } else {
-                assert(a1[i].children[l1] == a0[i].children[l1]); assert(a1[i].children[l2] == a0[i].children[l2]);
-            }
-        }
-    }
-    assert(leaf_ok(a1)) by {
-        assert forall|i: usize| a1.dom().contains(i) implies (#[trigger] a1[i].isleaf <==> no_kids(a1[i])) by {
-            if i == c {} else if i == parent { assert(a1[i].children[label as int].is_some()); }
-            else { assert(a1[i] == a0[i]); }
-        }
-    }
-    assert(root_ok(a1, root)) by {
-        assert forall|i: usize| a1.dom().contains(i) && (#[trigger] a1[i].parent).is_none() implies root == Some(i) by {
-            if i != c { assert(a1[i].parent == a0[i].parent); }
-        }
-        if root.is_some() { assert(a1[root.unwrap()].parent == a0[root.unwrap()].parent); }
-        if root.is_none() { assert(a0.dom().contains(parent)); }
-    }
-}
-
-pub proof fn lemma_same_shape_wf_all<N, const K: usize>(a0: Arena<N, K>, root: Option<usize>)
-    requires wf_at(a0, root)
-    ensures forall|a1: Arena<N, K>| #[trigger] same_shape(a0, a1) ==> wf_at(a1, root)
-{
-    assert forall|a1: Arena<N, K>| #[trigger] same_shape(a0, a1) implies wf_at(a1, root) by { lemma_same_shape_wf(a0, a1, root); }
-}
-
-// complete effect of add_child_node: error => unchanged; success => child_added
-pub open spec fn add_child_post<N, const K: usize>(a0: Arena<N, K>, a1: Arena<N, K>, parent: usize, label: usize, r: Result<usize, NodeError>) -> bool {
-    &&& r is Err ==> a1 == a0
-    &&& r is Ok ==> child_added(a0, a1, parent, label, r->Ok_0)
-}
-
-pub proof fn lemma_add_child_wf_all<N, const K: usize>(a0: Arena<N, K>, root: Option<usize>, parent: usize, label: usize)
-    requires wf_at(a0, root)
-    ensures forall|a1: Arena<N, K>, r: Result<usize, NodeError>| #[trigger] add_child_post(a0, a1, parent, label, r) ==> wf_at(a1, root)
-{
-    assert forall|a1: Arena<N, K>, r: Result<usize, NodeError>| #[trigger] add_child_post(a0, a1, parent, label, r) implies wf_at(a1, root) by {
-        if r is Ok { lemma_add_child_wf(a0, a1, root, parent, label, r->Ok_0); }
-    }
-}
-
-// ---------------------------------------------------------------- descendants
-pub proof fn lemma_desc_step<N, const K: usize>(a: Arena<N, K>, n: usize, x: usize, f: nat)
-    requires a.dom().contains(x), a[x].parent.is_some(), is_desc(a, n, a[x].parent.unwrap(), f)
-    ensures is_desc(a, n, x, f + 1), desc(a, n, x)
-{ assert(is_desc(a, n, x, f + 1)); }
-
-pub proof fn lemma_desc_child<N, const K: usize>(a: Arena<N, K>, n: usize, x: usize)
-    requires a.dom().contains(x), a[x].parent == Some(n)
-    ensures is_desc(a, n, x, 1), desc(a, n, x)
-{ assert(is_desc(a, n, x, 1)); }
-
-pub proof fn lemma_desc_rank<N, const K: usize>(a: Arena<N, K>, d: Map<usize, nat>, n: usize, x: usize, f: nat)
-    requires ranked(a, d), is_desc(a, n, x, f)
-    ensures d[n] < d[x]
-    decreases f
-{
-    let p = a[x].parent.unwrap();
-    if p != n { lemma_desc_rank(a, d, n, p, (f - 1) as nat); }
-}
-
-// a node with a parent that is a descendant (or n itself) is a descendant
-pub proof fn lemma_desc_via_parent<N, const K: usize>(a: Arena<N, K>, n: usize, x: usize)
-    requires a.dom().contains(x), a[x].parent.is_some(), a[x].parent.unwrap() == n || desc(a, n, a[x].parent.unwrap())
-    ensures desc(a, n, x)
-{
-    let p = a[x].parent.unwrap();
-    if p == n { lemma_desc_child(a, n, x); }
-    else {
-        let f = choose|f: nat| is_desc(a, n, p, f);
-        lemma_desc_step(a, n, x, f);
-    }
-}
-
-// a1 is a0 with all proper descendants of n removed and n turned into a leaf
-pub open spec fn descendants_removed<N, const K: usize>(a0: Arena<N, K>, a1: Arena<N, K>, n: usize) -> bool {
-    &&& a0.dom().contains(n) && a1.dom().contains(n)
-    &&& forall|i: usize| #![trigger a1.dom().contains(i)] a1.dom().contains(i) <==> a0.dom().contains(i) && !desc(a0, n, i)
-    &&& a1[n].parent == a0[n].parent && a1[n].value == a0[n].value && a1[n].isleaf && no_kids(a1[n])
-    &&& forall|i: usize| #![trigger a1[i]] a1.dom().contains(i) && i != n ==> a1[i] == a0[i]
-}
-
-pub proof fn lemma_descendants_removed_wf<N, const K: usize>(a0: Arena<N, K>, a1: Arena<N, K>, root: Option<usize>, n: usize)
-    requires wf_at(a0, root), descendants_removed(a0, a1, n)
-    ensures wf_at(a1, root)
-{
-    let d = choose|d: Map<usize, nat>| ranked(a0, d);
-    assert forall|x: usize| a1.dom().contains(x) implies a1[x].parent == a0[x].parent by {}
-    assert(ranked(a1, d));
-    let h = choose|h: Map<usize, nat>| ranked_down(a0, h);
-    assert(ranked_down(a1, h)) by {
-        assert forall|i: usize, l: int| a1.dom().contains(i) && 0 <= l < K && (#[trigger] a1[i].children[l]).is_some() implies h[a1[i].children[l].unwrap()] < h[i] by {
-            if i == n { assert(a1[n].children[l].is_none()); } else { assert(a1[i] == a0[i]); }
-        }
-    }
-    assert(kids_ok(a1)) by {
-        assert forall|i: usize, l: int| a1.dom().contains(i) && 0 <= l < K && (#[trigger] a1[i].children[l]).is_some() implies
-            a1.dom().contains(a1[i].children[l].unwrap()) && a1[a1[i].children[l].unwrap()].parent == Some(i) by {
-            if i == n { assert(a1[n].children[l].is_none()); }
-            else {
-                assert(a1[i] == a0[i]);
-                let x = a0[i].children[l].unwrap();
-                assert(a0.dom().contains(x) && a0[x].parent == Some(i));
-                if desc(a0, n, x) {
-                    let f = choose|f: nat| is_desc(a0, n, x, f);
-                    assert(is_desc(a0, n, i, (f - 1) as nat));
-                    assert(desc(a0, n, i));
-                }
-                assert(a1.dom().contains(x));
-            }
-        }
-    }
-    assert(parents_ok(a1)) by {
-        assert forall|x: usize| a1.dom().contains(x) && (#[trigger] a1[x].parent).is_some() implies
-            a1.dom().contains(a1[x].parent.unwrap())
-            && exists|l: int| 0 <= l < K && #[trigger] a1[a1[x].parent.unwrap()].children[l] == Some(x) by {
-            let q = a0[x].parent.unwrap();
-            assert(a0.dom().contains(q));
-            if q == n || desc(a0, n, q) { lemma_desc_via_parent(a0, n, x); }
-            assert(a1.dom().contains(q) && q != n);
-            let l = choose|l: int| 0 <= l < K && #[trigger] a0[q].children[l] == Some(x);
-            assert(a1[q].children[l] == Some(x));
-        }
-    }
-    assert(kids_unique(a1)) by {
-        assert forall|i: usize, l1: int, l2: int| a1.dom().contains(i) && 0 <= l1 < K && 0 <= l2 < K && l1 != l2
-            && (#[trigger] a1[i].children[l1]).is_some() implies a1[i].children[l1] != #[trigger] a1[i].children[l2] by {
-            if i == n { assert(a1[n].children[l1].is_none()); } else { assert(a1[i] == a0[i]); }
-        }
-    }
-    assert(leaf_ok(a1)) by {
-        assert forall|i: usize| a1.dom().contains(i) implies (#[trigger] a1[i].isleaf <==> no_kids(a1[i])) by {
-            if i != n { assert(a1[i] == a0[i]); }
-        }
-    }
-    assert(root_ok(a1, root)) by {
-        if root.is_some() {
-            let r = root.unwrap();
-            if desc(a0, n, r) { let f = choose|f: nat| is_desc(a0, n, r, f); }
-            assert(a1.dom().contains(r));
-        } else { assert(a0.dom().contains(n)); }
-    }
-}
-
-pub open spec fn remove_desc_post<N, const K: usize>(a0: Arena<N, K>, a1: Arena<N, K>, n: usize, r: Result<i32, InvalidTreeIndexError>) -> bool {
-    &&& r is Err ==> a1 == a0
-    &&& r is Ok ==> descendants_removed(a0, a1, n)
-}
-pub proof fn lemma_remove_desc_wf_all<N, const K: usize>(a0: Arena<N, K>, root: Option<usize>, n: usize)
-    requires wf_at(a0, root)
-    ensures forall|a1: Arena<N, K>, r: Result<i32, InvalidTreeIndexError>| #[trigger] remove_desc_post(a0, a1, n, r) ==> wf_at(a1, root)
-{
-    assert forall|a1: Arena<N, K>, r: Result<i32, InvalidTreeIndexError>| #[trigger] remove_desc_post(a0, a1, n, r) implies wf_at(a1, root) by {
-        if r is Ok { lemma_descendants_removed_wf(a0, a1, root, n); }
-    }
-}
-
-// ---------------------------------------------------------------- remove child
-// a1 is a0 with the child c at (parent,label) and all of c's descendants removed
-pub open spec fn child_removed<N, const K: usize>(a0: Arena<N, K>, a1: Arena<N, K>, parent: usize, label: usize) -> bool {
-    let c = a0[parent].children[label as int].unwrap();
-    &&& a0.dom().contains(parent) && label < K && a0[parent].children[label as int].is_some()
-    &&& forall|i: usize| #![trigger a1.dom().contains(i)] a1.dom().contains(i) <==> a0.dom().contains(i) && i != c && !desc(a0, c, i)
-    &&& a1[parent].children@ == a0[parent].children@.update(label as int, None)
-    &&& a1[parent].parent == a0[parent].parent && a1[parent].value == a0[parent].value
-    &&& a1[parent].isleaf == no_kids(a1[parent])
-    &&& forall|i: usize| #![trigger a1[i]] a1.dom().contains(i) && i != parent ==> a1[i] == a0[i]
-}
-
-pub proof fn lemma_child_removed_wf<N, const K: usize>(a0: Arena<N, K>, a1: Arena<N, K>, root: Option<usize>, parent: usize, label: usize)
-    requires wf_at(a0, root), child_removed(a0, a1, parent, label)
-    ensures wf_at(a1, root)
-{
-    let d = choose|d: Map<usize, nat>| ranked(a0, d);
-    let c = a0[parent].children[label as int].unwrap();
-    assert(a0.dom().contains(c) && a0[c].parent == Some(parent));
-    assert(d[parent] < d[c]);
-    if desc(a0, c, parent) { let f = choose|f: nat| is_desc(a0, c, parent, f); lemma_desc_rank(a0, d, c, parent, f); }
-    assert(a1.dom().contains(parent));
-    assert forall|l: int| 0 <= l < K && l != label implies a1[parent].children[l] == a0[parent].children[l] by {
-        assert(a1[parent].children@[l] == a0[parent].children@[l]);
-    }
-    assert(a1[parent].children[label as int].is_none()) by { assert(a1[parent].children@[label as int] == None::<usize>); }
-    assert forall|x: usize| a1.dom().contains(x) implies a1[x].parent == a0[x].parent by {}
-    assert(ranked(a1, d));
-    let h = choose|h: Map<usize, nat>| ranked_down(a0, h);
-    assert(ranked_down(a1, h)) by {
-        assert forall|i: usize, l: int| a1.dom().contains(i) && 0 <= l < K && (#[trigger] a1[i].children[l]).is_some() implies h[a1[i].children[l].unwrap()] < h[i] by {
-            if i == parent { assert(l != label); assert(a1[i].children[l] == a0[i].children[l]); } else { assert(a1[i] == a0[i]); }
-        }
-    }
-    assert(kids_ok(a1)) by {
-        assert forall|i: usize, l: int| a1.dom().contains(i) && 0 <= l < K && (#[trigger] a1[i].children[l]).is_some() implies
-            a1.dom().contains(a1[i].children[l].unwrap()) && a1[a1[i].children[l].unwrap()].parent == Some(i) by {
-            if i == parent { assert(l != label); assert(a1[i].children[l] == a0[i].children[l]); }
-            else { assert(a1[i] == a0[i]); }
-            let x = a0[i].children[l].unwrap();
-            assert(a0.dom().contains(x) && a0[x].parent == Some(i));
-            if x == c { assert(i == parent); assert(a0[parent].children[l] != a0[parent].children[label as int]); }
-            if desc(a0, c, x) {
-                let f = choose|f: nat| is_desc(a0, c, x, f);
-                if i != c { assert(is_desc(a0, c, i, (f - 1) as nat)); assert(desc(a0, c, i)); }
-            }
-            assert(a1.dom().contains(x));
-        }
-    }
-    assert(parents_ok(a1)) by {
-        assert forall|x: usize| a1.dom().contains(x) && (#[trigger] a1[x].parent).is_some() implies
-            a1.dom().contains(a1[x].parent.unwrap())
-            && exists|l: int| 0 <= l < K && #[trigger] a1[a1[x].parent.unwrap()].children[l] == Some(x) by {
-            let q = a0[x].parent.unwrap();
-            assert(a0.dom().contains(q));
-            if q == c || desc(a0, c, q) { lemma_desc_via_parent(a0, c, x); }
-            assert(a1.dom().contains(q));
-            let l = choose|l: int| 0 <= l < K && #[trigger] a0[q].children[l] == Some(x);
-            if q == parent { assert(l != label); }
-            assert(a1[q].children[l] == Some(x));
-        }
-    }
-    assert(kids_unique(a1)) by {
-        assert forall|i: usize, l1: int, l2: int| a1.dom().contains(i) && 0 <= l1 < K && 0 <= l2 < K && l1 != l2
-            && (#[trigger] a1[i].children[l1]).is_some() implies a1[i].children[l1] != #[trigger] a1[i].children[l2] by {
-            if i == parent {
-                assert(l1 != label); assert(a1[i].children[l1] == a0[i].children[l1]);
-                if l2 != label { assert(a1[i].children[l2] == a0[i].children[l2]); }
-            } else { assert(a1[i] == a0[i]); }
-        }
-    }
-    assert(leaf_ok(a1)) by {
-        assert forall|i: usize| a1.dom().contains(i) implies (#[trigger] a1[i].isleaf <==> no_kids(a1[i])) by {
-            if i != parent { assert(a1[i] == a0[i]); }
-        }
-    }
-    assert(root_ok(a1, root)) by {
-        if root.is_some() {
-            let r = root.unwrap();
-            if desc(a0, c, r) { let f = choose|f: nat| is_desc(a0, c, r, f); }
-            assert(a1.dom().contains(r));
-        } else { assert(a0.dom().contains(parent)); }
-    }
-}
-
-pub open spec fn remove_child_post<N, const K: usize>(a0: Arena<N, K>, a1: Arena<N, K>, parent: usize, label: usize, is_err: bool) -> bool {
-    &&& is_err ==> a1 == a0
-    &&& !is_err ==> child_removed(a0, a1, parent, label)
-}
-pub proof fn lemma_remove_child_wf_all<N, const K: usize>(a0: Arena<N, K>, root: Option<usize>, parent: usize, label: usize)
-    requires wf_at(a0, root)
-    ensures forall|a1: Arena<N, K>, e: bool| #[trigger] remove_child_post(a0, a1, parent, label, e) ==> wf_at(a1, root)
-{
-    assert forall|a1: Arena<N, K>, e: bool| #[trigger] remove_child_post(a0, a1, parent, label, e) implies wf_at(a1, root) by {
-        if !e { lemma_child_removed_wf(a0, a1, root, parent, label); }
-    }
-}
-
-// ---------------------------------------------------------------- merge
-pub proof fn lemma_single_kid<N, const K: usize>(nd: TreeNode<N, K>, lo: int, l1: int, l2: int)
-    requires 0 <= lo <= l1 < K, lo <= l2 < K, l1 != l2, nd.children[l1].is_some(), nd.children[l2].is_some()
-    ensures count_some_from(nd.children, lo) >= 2
-    decreases K - lo
-{
-    if lo < l1 && lo < l2 { lemma_single_kid(nd, lo + 1, l1, l2); }
-    else if lo == l1 { lemma_count_pos(nd, lo + 1, l2); }
-    else { lemma_count_pos(nd, lo + 1, l1); }
-}
-pub proof fn lemma_count_pos<N, const K: usize>(nd: TreeNode<N, K>, lo: int, l: int)
-    requires 0 <= lo <= l < K, nd.children[l].is_some()
-    ensures count_some_from(nd.children, lo) >= 1
-    decreases K - lo
-{
-    if lo < l { lemma_count_pos(nd, lo + 1, l); }
-}
-
-// a1 is a0 with node p spliced out: its only child c (at `label`) takes p's slot `gl` under the grandparent g
-pub open spec fn merged<N, const K: usize>(a0: Arena<N, K>, a1: Arena<N, K>, p: usize, label: usize, gl: int) -> bool {
-    let c = a0[p].children[label as int].unwrap();
-    let g = a0[p].parent.unwrap();
-    &&& a0.dom().contains(p) && label < K && a0[p].children[label as int].is_some() && a0[p].parent.is_some()
-    &&& count_some_from(a0[p].children, 0) == 1
-    &&& 0 <= gl < K && a0[g].children[gl] == Some(p)
-    &&& a1.dom() =~= a0.dom().remove(p)
-    &&& a1[g].children@ == a0[g].children@.update(gl, Some(c))
-    &&& a1[g].parent == a0[g].parent && a1[g].value == a0[g].value && a1[g].isleaf == a0[g].isleaf
-    &&& a1[c].parent == Some(g) && a1[c].children == a0[c].children && a1[c].value == a0[c].value && a1[c].isleaf == a0[c].isleaf
-    &&& forall|i: usize| #![trigger a1[i]] a1.dom().contains(i) && i != g && i != c ==> a1[i] == a0[i]
-}
-
-pub proof fn lemma_merged_wf<N, const K: usize>(a0: Arena<N, K>, a1: Arena<N, K>, root: Option<usize>, p: usize, label: usize, gl: int)
-    requires wf_at(a0, root), merged(a0, a1, p, label, gl)
-    ensures wf_at(a1, root)
-{
-    let d = choose|d: Map<usize, nat>| ranked(a0, d);
-    let c = a0[p].children[label as int].unwrap();
-    let g = a0[p].parent.unwrap();
-    assert(a0.dom().contains(c) && a0[c].parent == Some(p));
-    assert(a0.dom().contains(g));
-    assert(d[g] < d[p] && d[p] < d[c]);
-    assert(g != p && c != p && g != c);
-    assert forall|l: int| 0 <= l < K && l != gl implies a1[g].children[l] == a0[g].children[l] by {
-        assert(a1[g].children@[l] == a0[g].children@[l]);
-    }
-    assert(a1[g].children[gl] == Some(c)) by { assert(a1[g].children@[gl] == Some(c)); }
-    // c is the only child of p
-    assert forall|l: int| 0 <= l < K && l != label implies (#[trigger] a0[p].children[l]).is_none() by {
-        if a0[p].children[l].is_some() {
-            if l < label { lemma_single_kid(a0[p], 0, l, label as int); } else { lemma_single_kid(a0[p], 0, label as int, l); }
-        }
-    }
-    assert forall|x: usize| a1.dom().contains(x) && x != c implies a1[x].parent == a0[x].parent by {}
-    assert forall|x: usize| a1.dom().contains(x) && x != g implies a1[x].children == a0[x].children by {}
-    assert(ranked(a1, d)) by {
-        assert forall|x: usize| a1.dom().contains(x) && (#[trigger] a1[x].parent).is_some() implies d[a1[x].parent.unwrap()] < d[x] by {
-            if x == c {} else { assert(a1[x].parent == a0[x].parent); }
-        }
-    }
-    let h = choose|h: Map<usize, nat>| ranked_down(a0, h);
-    assert(h[c] < h[p] && h[p] < h[g]) by { assert(a0[p].children[label as int].is_some()); assert(a0[g].children[gl].is_some()); }
-    assert(ranked_down(a1, h)) by {
-        assert forall|i: usize, l: int| a1.dom().contains(i) && 0 <= l < K && (#[trigger] a1[i].children[l]).is_some() implies h[a1[i].children[l].unwrap()] < h[i] by {
-            if i == g && l == gl {} else { assert(a1[i].children[l] == a0[i].children[l]); }
-        }
-    }
-    assert(kids_ok(a1)) by {
-        assert forall|i: usize, l: int| a1.dom().contains(i) && 0 <= l < K && (#[trigger] a1[i].children[l]).is_some() implies
-            a1.dom().contains(a1[i].children[l].unwrap()) && a1[a1[i].children[l].unwrap()].parent == Some(i) by {
-            if i == g && l == gl {}
-            else {
-                assert(a1[i].children[l] == a0[i].children[l]);
-                let x = a0[i].children[l].unwrap();
-                assert(a0.dom().contains(x) && a0[x].parent == Some(i));
-                if x == p { assert(i == g); assert(a0[g].children[l] != a0[g].children[gl]); }
-                assert(x != c);
-                assert(a1[x].parent == a0[x].parent);
-            }
-        }
-    }
-    assert(parents_ok(a1)) by {
-        assert forall|x: usize| a1.dom().contains(x) && (#[trigger] a1[x].parent).is_some() implies
-            a1.dom().contains(a1[x].parent.unwrap())
-            && exists|l: int| 0 <= l < K && #[trigger] a1[a1[x].parent.unwrap()].children[l] == Some(x) by {
-            if x == c { assert(a1[g].children[gl] == Some(c)); }
-            else {
-                assert(a1[x].parent == a0[x].parent);
-                let q = a0[x].parent.unwrap();
-                let l = choose|l: int| 0 <= l < K && #[trigger] a0[q].children[l] == Some(x);
-                if q == p { assert(l == label); }
-                assert(q != p);
-                if q == g { assert(l != gl); }
-                assert(a1[q].children[l] == Some(x));
-            }
-        }
-    }
-    assert(kids_unique(a1)) by {
-        assert forall|i: usize, l1: int, l2: int| a1.dom().contains(i) && 0 <= l1 < K && 0 <= l2 < K && l1 != l2
-            && (#[trigger] a1[i].children[l1]).is_some() implies a1[i].children[l1] != #[trigger] a1[i].children[l2] by {
-            if i == g {
-                if l1 == gl { assert(a1[g].children[l2] == a0[g].children[l2]); if a0[g].children[l2] == Some(c) { assert(a0[c].parent == Some(g)); } }
-                else if l2 == gl { assert(a1[g].children[l1] == a0[g].children[l1]); if a0[g].children[l1] == Some(c) { assert(a0[c].parent == Some(g)); } }
-                else { assert(a1[g].children[l1] == a0[g].children[l1]); assert(a1[g].children[l2] == a0[g].children[l2]); }
-            } else { assert(a1[i].children == a0[i].children); }
-        }
-    }
-    assert(leaf_ok(a1)) by {
-        assert forall|i: usize| a1.dom().contains(i) implies (#[trigger] a1[i].isleaf <==> no_kids(a1[i])) by {
-            if i == g { assert(a0[g].children[gl].is_some()); assert(a1[g].children[gl].is_some()); }
-            else { assert(a1[i].children == a0[i].children); assert(a1[i].isleaf == a0[i].isleaf); assert(no_kids(a1[i]) <==> no_kids(a0[i])); }
-        }
-    }
-    assert(root_ok(a1, root)) by {
-        assert forall|i: usize| a1.dom().contains(i) && (#[trigger] a1[i].parent).is_none() implies root == Some(i) by {
-            assert(i != c); assert(a1[i].parent == a0[i].parent);
-        }
-        if root.is_some() { let r = root.unwrap(); assert(r != p && r != c); assert(a1[r].parent == a0[r].parent); }
-        else { assert(a0.dom().contains(p)); }
-    }
-}
-
-pub open spec fn merge_post<N, const K: usize>(a0: Arena<N, K>, a1: Arena<N, K>, p: usize, label: usize, is_err: bool) -> bool {
-    &&& is_err ==> a1 == a0
-    &&& !is_err ==> exists|gl: int| merged(a0, a1, p, label, gl)
-}
-pub proof fn lemma_merge_wf_all<N, const K: usize>(a0: Arena<N, K>, root: Option<usize>, p: usize, label: usize)
-    requires wf_at(a0, root)
-    ensures forall|a1: Arena<N, K>, e: bool| #[trigger] merge_post(a0, a1, p, label, e) ==> wf_at(a1, root)
-{
-    assert forall|a1: Arena<N, K>, e: bool| #[trigger] merge_post(a0, a1, p, label, e) implies wf_at(a1, root) by {
-        if !e { let gl = choose|gl: int| merged(a0, a1, p, label, gl); lemma_merged_wf(a0, a1, root, p, label, gl); }
-    }
-}
-
-// ---------------------------------------------------------------- loop invariant of remove_all_descendants
-// a: current arena, S: work stack, n: subtree root
-pub open spec fn rd_inv<N, const K: usize>(a0: Arena<N, K>, a: Arena<N, K>, s: Seq<usize>, n: usize) -> bool {
-    // nothing is mutated, only removed; n stays
-    &&& forall|i: usize| #![trigger a.dom().contains(i)] a.dom().contains(i) ==> a0.dom().contains(i) && a[i] == a0[i]
-    &&& a.dom().contains(n)
-    // stack entries are live and pairwise different
-    &&& forall|j: int| 0 <= j < s.len() ==> a.dom().contains(#[trigger] s[j])
-    &&& forall|j1: int, j2: int| 0 <= j1 < j2 < s.len() ==> s[j1] != s[j2]
-    // whatever is removed or queued is a descendant of n whose parent is n or already removed
-    &&& forall|x: usize| #![trigger a0[x].parent] a0.dom().contains(x) && (!a.dom().contains(x) || s.contains(x)) ==>
-            a0[x].parent.is_some() && desc(a0, n, x)
-            && (a0[x].parent.unwrap() == n || !a.dom().contains(a0[x].parent.unwrap()))
-    // children of n and of removed nodes are removed or queued
-    &&& forall|x: usize| #![trigger a0[x].parent] a0.dom().contains(x) && a0[x].parent.is_some()
-            && (a0[x].parent.unwrap() == n || !a.dom().contains(a0[x].parent.unwrap()))
-            ==> !a.dom().contains(x) || s.contains(x)
-}
-
-// the same while node q (just popped, logically removed: am = a.remove(q)) has its children slots < i pushed
-pub open spec fn rd_inv_i<N, const K: usize>(a0: Arena<N, K>, am: Arena<N, K>, s: Seq<usize>, n: usize, q: usize, i: int) -> bool {
-    &&& forall|x: usize| #![trigger am.dom().contains(x)] am.dom().contains(x) ==> a0.dom().contains(x) && am[x] == a0[x]
-    &&& am.dom().contains(n) && a0.dom().contains(q) && !am.dom().contains(q) && q != n
-    &&& forall|j: int| 0 <= j < s.len() ==> am.dom().contains(#[trigger] s[j])
-    &&& forall|j1: int, j2: int| 0 <= j1 < j2 < s.len() ==> s[j1] != s[j2]
-    &&& forall|x: usize| #![trigger a0[x].parent] a0.dom().contains(x) && (!am.dom().contains(x) || s.contains(x)) ==>
-            a0[x].parent.is_some() && desc(a0, n, x)
-            && (a0[x].parent.unwrap() == n || !am.dom().contains(a0[x].parent.unwrap()))
-    &&& forall|x: usize| #![trigger a0[x].parent] a0.dom().contains(x) && a0[x].parent.is_some()
-            && (a0[x].parent.unwrap() == n || !am.dom().contains(a0[x].parent.unwrap()))
-            && !(a0[x].parent.unwrap() == q && exists|l: int| i <= l < K && #[trigger] a0[q].children[l] == Some(x))
-            ==> !am.dom().contains(x) || s.contains(x)
-    // of q's children only those in slots < i have been queued
-    &&& forall|x: usize| #![trigger a0[x].parent] a0.dom().contains(x) && a0[x].parent == Some(q) && (!am.dom().contains(x) || s.contains(x))
-            ==> exists|l: int| 0 <= l < i && #[trigger] a0[q].children[l] == Some(x)
-}
-
-pub proof fn lemma_rd_init<N, const K: usize>(a0: Arena<N, K>, root: Option<usize>, n: usize)
-    requires wf_at(a0, root), a0.dom().contains(n)
-    ensures rd_inv(a0, a0, kid_idx(a0[n].children, 0), n)
-{
-    let s = kid_idx(a0[n].children, 0);
-    lemma_kid_idx_members(a0[n].children, 0);
-    lemma_kid_idx_distinct(a0[n].children, 0);
-    assert forall|j: int| 0 <= j < s.len() implies a0.dom().contains(#[trigger] s[j]) by {
-        let l = choose|l: int| 0 <= l < K && #[trigger] a0[n].children[l] == Some(s[j]);
-    }
-    assert forall|x: usize| a0.dom().contains(x) && s.contains(x) implies
-            (#[trigger] a0[x].parent).is_some() && desc(a0, n, x) && a0[x].parent.unwrap() == n by {
-        let j = choose|j: int| 0 <= j < s.len() && s[j] == x;
-        let l = choose|l: int| 0 <= l < K && #[trigger] a0[n].children[l] == Some(s[j]);
-        lemma_desc_child(a0, n, x);
-    }
-    assert forall|x: usize| a0.dom().contains(x) && (#[trigger] a0[x].parent).is_some() && a0[x].parent.unwrap() == n implies s.contains(x) by {
-        let l = choose|l: int| 0 <= l < K && #[trigger] a0[n].children[l] == Some(x);
-        assert(a0[n].children[l].is_some());
-    }
-}
-
-// popping q: (a, s ++ [q]) --> rd_inv_i(a.remove(q), s, q, 0)
-// form used at the loop head of `while let Some(q) = stack.pop()`: the pre-pop stack is existentially quantified
-pub proof fn lemma_rd_pop_ex<N, const K: usize>(a0: Arena<N, K>, root: Option<usize>, a: Arena<N, K>, s: Seq<usize>, q: usize, n: usize)
-    requires wf_at(a0, root), exists|s0: Seq<usize>| #[trigger] rd_inv(a0, a, s0, n) && s0.len() > 0 && s0.last() == q && s0.drop_last() == s
-    ensures rd_inv_i(a0, a.remove(q), s, n, q, 0), a.dom().contains(q), a0.dom().contains(q), desc(a0, n, q), a[q] == a0[q]
-{
-    let s0 = choose|s0: Seq<usize>| #[trigger] rd_inv(a0, a, s0, n) && s0.len() > 0 && s0.last() == q && s0.drop_last() == s;
-    lemma_rd_pop(a0, root, a, s0, n);
-    assert(s0.contains(q)) by { assert(s0[s0.len() - 1] == q); }
-    assert(a.dom().contains(q)) by { assert(s0[s0.len() - 1] == q); }
-    assert(a0.dom().contains(q));
-    assert(a0[q].parent.is_some() && desc(a0, n, q));
-}
-
-pub proof fn lemma_rd_pop<N, const K: usize>(a0: Arena<N, K>, root: Option<usize>, a: Arena<N, K>, s0: Seq<usize>, n: usize)
-    requires wf_at(a0, root), rd_inv(a0, a, s0, n), s0.len() > 0
-    ensures rd_inv_i(a0, a.remove(s0.last()), s0.drop_last(), n, s0.last(), 0)
-{
-    let q = s0.last();
-    let s = s0.drop_last();
-    let am = a.remove(q);
-    let d = choose|d: Map<usize, nat>| ranked(a0, d);
-    assert(s0.contains(q)) by { assert(s0[s0.len() - 1] == q); }
-    assert(a.dom().contains(q));
-    assert(a0.dom().contains(q));
-    assert(a0[q].parent.is_some() && desc(a0, n, q));
-    let f = choose|f: nat| is_desc(a0, n, q, f);
-    lemma_desc_rank(a0, d, n, q, f);
-    assert(q != n);
-    assert forall|j: int| 0 <= j < s.len() implies am.dom().contains(#[trigger] s[j]) by { assert(s[j] == s0[j]); assert(s0[j] != s0[s0.len() - 1]); }
-    assert forall|j1: int, j2: int| 0 <= j1 < j2 < s.len() implies s[j1] != s[j2] by { assert(s[j1] == s0[j1] && s[j2] == s0[j2]); }
-    assert forall|x: usize| s.contains(x) implies s0.contains(x) by {
-        let j = choose|j: int| 0 <= j < s.len() && s[j] == x; assert(s0[j] == x);
-    }
-    assert forall|x: usize| s0.contains(x) && x != q implies s.contains(x) by {
-        let j = choose|j: int| 0 <= j < s0.len() && s0[j] == x; assert(j < s.len()); assert(s[j] == x);
-    }
-    assert forall|x: usize| a0.dom().contains(x) && (!am.dom().contains(x) || s.contains(x)) implies
-            (#[trigger] a0[x].parent).is_some() && desc(a0, n, x)
-            && (a0[x].parent.unwrap() == n || !am.dom().contains(a0[x].parent.unwrap())) by {
-        assert(!a.dom().contains(x) || s0.contains(x));
-    }
-    assert forall|x: usize| a0.dom().contains(x) && a0[x].parent == Some(q) && (!am.dom().contains(x) || s.contains(x))
-            implies exists|l: int| 0 <= l < 0 && #[trigger] a0[q].children[l] == Some(x) by {
-        // x removed or queued would need its parent q removed (or == n): impossible
-        assert(d[q] < d[x]);
-        assert(x != q);
-        assert(!a.dom().contains(x) || s0.contains(x));
-        assert(a0[x].parent.unwrap() == n || !a.dom().contains(a0[x].parent.unwrap()));
-    }
-    assert forall|x: usize| a0.dom().contains(x) && (#[trigger] a0[x].parent).is_some()
-            && (a0[x].parent.unwrap() == n || !am.dom().contains(a0[x].parent.unwrap()))
-            && !(a0[x].parent.unwrap() == q && exists|l: int| 0 <= l < K && #[trigger] a0[q].children[l] == Some(x))
-            implies !am.dom().contains(x) || s.contains(x) by {
-        let p = a0[x].parent.unwrap();
-        if p == q {
-            let l = choose|l: int| 0 <= l < K && #[trigger] a0[p].children[l] == Some(x);
-            assert(a0[q].children[l] == Some(x));
-        } else {
-            assert(p == n || !a.dom().contains(p));
-            assert(!a.dom().contains(x) || s0.contains(x));
-        }
-    }
-}
-
-// pushing the child in slot i of q (if any)
-pub proof fn lemma_rd_push<N, const K: usize>(a0: Arena<N, K>, root: Option<usize>, am: Arena<N, K>, s: Seq<usize>, n: usize, q: usize, i: int)
-    requires wf_at(a0, root), rd_inv_i(a0, am, s, n, q, i), 0 <= i < K, desc(a0, n, q)
-    ensures
-        a0[q].children[i].is_none() ==> rd_inv_i(a0, am, s, n, q, i + 1),
-        a0[q].children[i].is_some() ==> rd_inv_i(a0, am, s.push(a0[q].children[i].unwrap()), n, q, i + 1),
-{
-    let d = choose|d: Map<usize, nat>| ranked(a0, d);
-    if a0[q].children[i].is_none() {
-        assert forall|x: usize| a0.dom().contains(x) && (#[trigger] a0[x].parent).is_some()
-                && (a0[x].parent.unwrap() == n || !am.dom().contains(a0[x].parent.unwrap()))
-                && !(a0[x].parent.unwrap() == q && exists|l: int| i + 1 <= l < K && #[trigger] a0[q].children[l] == Some(x))
-                implies !am.dom().contains(x) || s.contains(x) by {
-            if a0[x].parent.unwrap() == q && exists|l: int| i <= l < K && #[trigger] a0[q].children[l] == Some(x) {
-                let l = choose|l: int| i <= l < K && #[trigger] a0[q].children[l] == Some(x);
-                assert(l != i);
-            }
-        }
-        assert forall|x: usize| a0.dom().contains(x) && a0[x].parent == Some(q) && (!am.dom().contains(x) || s.contains(x))
-                implies exists|l: int| 0 <= l < i + 1 && #[trigger] a0[q].children[l] == Some(x) by {
-            let l = choose|l: int| 0 <= l < i && #[trigger] a0[q].children[l] == Some(x);
-            assert(a0[q].children[l] == Some(x));
-        }
-    } else {
-        let c = a0[q].children[i].unwrap();
-        let s1 = s.push(c);
-        assert(a0.dom().contains(c) && a0[c].parent == Some(q));
-        assert(d[q] < d[c]);
-        lemma_desc_via_parent(a0, n, c);
-        // c is neither removed nor queued yet
-        if !am.dom().contains(c) || s.contains(c) {
-            let l = choose|l: int| 0 <= l < i && #[trigger] a0[q].children[l] == Some(c);
-            assert(a0[q].children[l] != a0[q].children[i]);
-        }
-        assert(am.dom().contains(c) && !s.contains(c));
-        assert forall|j: int| 0 <= j < s1.len() implies am.dom().contains(#[trigger] s1[j]) by { if j < s.len() { assert(s1[j] == s[j]); } }
-        assert forall|j1: int, j2: int| 0 <= j1 < j2 < s1.len() implies s1[j1] != s1[j2] by {
-            assert(s1[j1] == s[j1]);
-            if j2 < s.len() { assert(s1[j2] == s[j2]); } else { assert(s.contains(s[j1])); }
-        }
-        assert forall|x: usize| s1.contains(x) implies s.contains(x) || x == c by {
-            let j = choose|j: int| 0 <= j < s1.len() && s1[j] == x; if j < s.len() { assert(s[j] == x); }
-        }
-        assert forall|x: usize| s.contains(x) || x == c implies s1.contains(x) by {
-            if x == c { assert(s1[s.len() as int] == c); } else { let j = choose|j: int| 0 <= j < s.len() && s[j] == x; assert(s1[j] == x); }
-        }
-        assert forall|x: usize| a0.dom().contains(x) && (!am.dom().contains(x) || s1.contains(x)) implies
-                (#[trigger] a0[x].parent).is_some() && desc(a0, n, x)
-                && (a0[x].parent.unwrap() == n || !am.dom().contains(a0[x].parent.unwrap())) by {
-            if x != c { assert(!am.dom().contains(x) || s.contains(x)); }
-        }
-        assert forall|x: usize| a0.dom().contains(x) && (#[trigger] a0[x].parent).is_some()
-                && (a0[x].parent.unwrap() == n || !am.dom().contains(a0[x].parent.unwrap()))
-                && !(a0[x].parent.unwrap() == q && exists|l: int| i + 1 <= l < K && #[trigger] a0[q].children[l] == Some(x))
-                implies !am.dom().contains(x) || s1.contains(x) by {
-            if a0[x].parent.unwrap() == q && exists|l: int| i <= l < K && #[trigger] a0[q].children[l] == Some(x) {
-                let l = choose|l: int| i <= l < K && #[trigger] a0[q].children[l] == Some(x);
-                assert(l == i);
-            } else { assert(!am.dom().contains(x) || s.contains(x)); }
-        }
-        assert forall|x: usize| a0.dom().contains(x) && a0[x].parent == Some(q) && (!am.dom().contains(x) || s1.contains(x))
-                implies exists|l: int| 0 <= l < i + 1 && #[trigger] a0[q].children[l] == Some(x) by {
-            if x == c { assert(a0[q].children[i] == Some(x)); }
-            else { let l = choose|l: int| 0 <= l < i && #[trigger] a0[q].children[l] == Some(x); assert(a0[q].children[l] == Some(x)); }
-        }
-    }
-}
-
-// all slots done: back to the outer invariant on the shrunken arena
-pub proof fn lemma_rd_done<N, const K: usize>(a0: Arena<N, K>, am: Arena<N, K>, s: Seq<usize>, n: usize, q: usize)
-    requires rd_inv_i(a0, am, s, n, q, K as int)
-    ensures rd_inv(a0, am, s, n)
-{}
-
-// at exit (stack empty) exactly the descendants are gone
-pub proof fn lemma_rd_closed<N, const K: usize>(a0: Arena<N, K>, a: Arena<N, K>, n: usize, x: usize, f: nat)
-    requires rd_inv(a0, a, Seq::<usize>::empty(), n), is_desc(a0, n, x, f), a0.dom().contains(x)
-    ensures !a.dom().contains(x)
-    decreases f
-{
-    let p = a0[x].parent.unwrap();
-    if p != n {
-        if a.dom().contains(p) { lemma_rd_closed(a0, a, n, p, (f - 1) as nat); }
-    }
-    assert(!Seq::<usize>::empty().contains(x));
-}
-
-pub proof fn lemma_rd_exit<N, const K: usize>(a0: Arena<N, K>, a: Arena<N, K>, n: usize)
-    requires rd_inv(a0, a, Seq::<usize>::empty(), n)
-    ensures forall|i: usize| #![trigger a.dom().contains(i)] a.dom().contains(i) <==> a0.dom().contains(i) && !desc(a0, n, i)
-{
-    assert forall|i: usize| #![trigger a.dom().contains(i)] a.dom().contains(i) <==> a0.dom().contains(i) && !desc(a0, n, i) by {
-        if a0.dom().contains(i) && desc(a0, n, i) {
-            let f = choose|f: nat| is_desc(a0, n, i, f);
-            lemma_rd_closed(a0, a, n, i, f);
-        }
-        if a0.dom().contains(i) && !a.dom().contains(i) { assert(a0[i].parent.is_some() && desc(a0, n, i)); }
-    }
-}
-
-// state of try_remove_child after remove_all_descendants(c): what is needed to finish the removal
-pub proof fn lemma_try_remove_mid<N, const K: usize>(a0: Arena<N, K>, am: Arena<N, K>, root: Option<usize>, parent: usize, label: usize)
-    requires wf_at(a0, root), a0.dom().contains(parent), label < K, a0[parent].children[label as int].is_some(),
-        descendants_removed(a0, am, a0[parent].children[label as int].unwrap())
-    ensures
-        am.dom().contains(parent), am[parent] == a0[parent], parent != a0[parent].children[label as int].unwrap(),
-        am.dom().contains(a0[parent].children[label as int].unwrap()),
-{
-    let d = choose|d: Map<usize, nat>| ranked(a0, d);
-    let c = a0[parent].children[label as int].unwrap();
-    assert(a0.dom().contains(c) && a0[c].parent == Some(parent));
-    assert(d[parent] < d[c]);
-    if desc(a0, c, parent) { let f = choose|f: nat| is_desc(a0, c, parent, f); lemma_desc_rank(a0, d, c, parent, f); }
-}
-
-impl<T, const K: usize> TreeNode<T, K> {
-//@fn src/tree/graph.rs | impl<T, const K: usize> TreeNode<T, K> | new
-//@spec
-    ensures r.isleaf, r.parent == parent, r.value == value, no_kids(r)
-//@end
-}
+//@include prelude/inc_tree_core.rs
 
 impl<'a, N> EdgeReference<'a, N> {
 //@fn src/tree/graph.rs | impl<'a, N> EdgeReference<'a, N> | edge
@@ -825,55 +47,14 @@ impl<'a, N> EdgeReference<'a, N> {
 }
 
 impl<N, const K: usize> Tree<N, K> {
-    pub open spec fn wf(&self) -> bool { wf_at(self.arena@, self.root) }
 
-//@fn src/tree/graph.rs | impl<N, const K: usize> Tree<N, K> | len
-//@spec
-    ensures r == self.arena@.dom().len()
-//@end
 
-//@fn src/tree/graph.rs | impl<N, const K: usize> Tree<N, K> | is_empty
-//@spec
-    ensures r == (self.arena@.dom().len() == 0)
-//@end
 
-//@fn src/tree/graph.rs | impl<N, const K: usize> Tree<N, K> | tree_node
-//@spec
-    ensures
-        self.arena@.dom().contains(idx) ==> r is Ok && *r->Ok_0 == self.arena@[idx],
-        !self.arena@.dom().contains(idx) ==> r is Err && r->Err_0.index == idx,
-//@end
 
-//@fn src/tree/graph.rs | impl<N, const K: usize> Tree<N, K> | tree_node_mut
-//@spec
-    ensures
-        !old(self).arena@.dom().contains(idx) ==> r is Err && r->Err_0.index == idx && final(self).arena@ == old(self).arena@,
-        old(self).arena@.dom().contains(idx) ==> r is Ok && *r->Ok_0 == old(self).arena@[idx]
-            && final(self).arena@ == old(self).arena@.insert(idx, *final(r->Ok_0)),
-        final(self).root == old(self).root,
-//@end
 
-//@fn src/tree/graph.rs | impl<N, const K: usize> Tree<N, K> | contains
-//@spec
-    ensures r == self.arena@.dom().contains(node_idx)
-//@end
 
-//@fn src/tree/graph.rs | impl<N, const K: usize> Tree<N, K> | is_root
-//@spec
-    ensures r == (self.root == Some(idx))
-//@end
 
-//@fn src/tree/graph.rs | impl<N, const K: usize> Tree<N, K> | num_children
-//@spec
-    requires self.arena@.dom().contains(node)
-    ensures r == count_some_from(self.arena@[node].children, 0), r <= K
-//@end
 
-//@fn src/tree/graph.rs | impl<N, const K: usize> Tree<N, K> | get_root_idx
-//@spec
-    requires self.root is Some
-    ensures Some(r) == self.root
-//@end
 
 //@fn src/tree/graph.rs | impl<N, const K: usize> Tree<N, K> | parent
 //@spec
@@ -912,65 +93,8 @@ impl<N, const K: usize> Tree<N, K> {
                 && *e.source_value == self.arena@[node_idx].value && *e.target_value == self.arena@[e.target_idx].value),
 //@end
 
-//@fn src/tree/graph.rs | impl<N, const K: usize> Tree<N, K> | add_root
-//@spec
-    ensures
-        final(self).root == Some(r),
-        !old(self).arena@.dom().contains(r),
-        final(self).arena@.dom() == old(self).arena@.dom().insert(r),
-        forall|i: usize| old(self).arena@.dom().contains(i) ==> final(self).arena@[i] == old(self).arena@[i],
-        final(self).arena@[r].value == value, final(self).arena@[r].parent is None,
-        final(self).arena@[r].isleaf, no_kids(final(self).arena@[r]),
-        // documented exception: only a previously empty tree stays well-formed
-        old(self).arena@.dom() =~= Set::<usize>::empty() ==> final(self).wf(),
-//@hint end
-        proof {
-            if old(self).arena@.dom() =~= Set::<usize>::empty() {
-                let a = self.arena@;
-                assert(a.dom() =~= set![idx]);
-                assert(ranked(a, Map::<usize, nat>::empty().insert(idx, 0nat)));
-                assert(ranked_down(a, Map::<usize, nat>::empty().insert(idx, 0nat))) by {
-                    assert forall|i: usize, l: int| a.dom().contains(i) && 0 <= l < K && (#[trigger] a[i].children[l]).is_some() implies false by { assert(i == idx); }
-                }
-                assert(no_kids(a[idx]));
-            }
-        }
-//@end
 
-//@fn src/tree/graph.rs | impl<N, const K: usize> Tree<N, K> | add_child_node
-//@spec
-    requires old(self).wf(), label < K
-    ensures
-        // an operation that returns an error leaves the tree observably unchanged;
-        // success: a fresh leaf under (parent, label), every other node keeps index and value
-        add_child_post(old(self).arena@, final(self).arena@, parent, label, r),
-        r matches Ok(c) ==> final(self).arena@[c].value == value
-            && final(self).arena@[parent].value == old(self).arena@[parent].value,
-        r is Err <==> !old(self).arena@.dom().contains(parent) || old(self).arena@[parent].children[label as int] is Some,
-        !old(self).arena@.dom().contains(parent) ==> (r matches Err(NodeError::InvalidIndex(e)) && e.index == parent),
-        final(self).root == old(self).root,
-        // the structural invariant is preserved (follows from the effect clause by lemma_add_child_wf)
-        add_child_post(old(self).arena@, final(self).arena@, parent, label, r) ==> final(self).wf(),
-//@hint start
-        proof { lemma_add_child_wf_all(old(self).arena@, old(self).root, parent, label); }
-//@end
 
-//@fn src/tree/graph.rs | impl<N, const K: usize> Tree<N, K> | update_node
-//@spec
-    requires old(self).wf()
-    ensures
-        final(self).root == old(self).root,
-        same_shape(old(self).arena@, final(self).arena@),
-        same_shape(old(self).arena@, final(self).arena@) ==> final(self).wf(),
-        !old(self).arena@.dom().contains(idx) ==> (r matches Err(NodeError::InvalidIndex(e)) && e.index == idx
-            && final(self).arena@ == old(self).arena@),
-        old(self).arena@.dom().contains(idx) ==> (r matches Ok(v) && v == old(self).arena@[idx].value
-            && same_shape(old(self).arena@, final(self).arena@)
-            && final(self).arena@[idx].value == value
-            && forall|i: usize| old(self).arena@.dom().contains(i) && i != idx ==> final(self).arena@[i] == old(self).arena@[i]),
-//@hint start
-        proof { lemma_same_shape_wf_all(old(self).arena@, old(self).root); }
-//@end
 
 //@fn src/tree/graph.rs | impl<N, const K: usize> Tree<N, K> | remove_all_descendants
 //@spec
